@@ -200,25 +200,38 @@ CHECKS["C15"] = dict(
         "no-starvation) + exhaustive/differential correspondence with the C code incl. function-level daemon histories on a real queue directory with libc fault injection",
    design="DESIGN.md §2 C15")
 CHECKS["C17"] = dict(
-   text="31 theorems about the Lean models of quote.c, token822.c, qmail-remote.c addrmangle, commands.c, qmail-smtpd.c addrparse and qmail-inject.c. Quoting: for EVERY local part (any bytes) and every sane domain "
-        "unquote(parse(quote2(local@domain)))=local@domain with token shape word(.word)*@domain; addrparse(<addrmangle a>)=a up to 899 bytes, refused beyond, through one commands() line; the regenerated ok[] table is "
-        "inside atomok/atomcheck (decide over 256 bytes). Envelope, from BYTES to the queue: for every legal rendering (a generator-style spec: atoms, quoted strings/literals with any quoted-pairs, nested comments, any white "
-        "space and folds) token822_parse returns exactly the rendered tokens; comment tokens never influence token822_addrlist (any token list); for every address list accepted by a grammar automaton - mailboxes, "
-        "display-name <route-addr>, groups, repeated and missing commas - and for every address-list tree of mailboxes and groups, token822_addrlist succeeds and hands exactly the listed mailboxes, right to left, to the "
-        "callback; a To/Cc/Bcc/Apparently-To (Resent-*) field appends exactly the unquoted rewritten mailboxes to hrlist (hrrlist); for every message on which qmail-inject exits 0 the recipients given to qmail-queue are the "
-        "rewritten arguments and/or the concatenation of the fields' contributions per -a/-h/-H/default; rwgeneric equals the documented string-level rewriting (default host, default domain, plus domain, literal hosts, "
-        "source routes stripped); parse(unparse n ts)=ts for EVERY line length (folding macro included) on clean tokens; Bcc/Resent-Bcc feed the envelope and never reach the header. Tied to the current source by the "
-        "translator (ok[], atomok, atomcheck, escape sets, hname[], H_*, LINELEN) and by two differential harnesses: H1 runs the real quoting/parsing functions on every local part over a 17-byte alphabet to length 5/6 and "
-        "every token string over a 15-byte alphabet to length 5/6 plus random long inputs and grammar-generated lists, re-renders the tokens the real parser returned (random folds, quoted-pairs, nested comments) and parses "
-        "them again, and runs token822_addrlist a second time without the comment tokens; H2 runs the real qmail-inject main in-process with a stand-in queue on headers from an RFC 822 grammar generator (groups, routes, "
-        "comments, quoted strings, literals, folding, missing commas; expected mailboxes known by construction) x flag/strategy/configuration combinations, and injects every produced message a second time. "
-        "Oracles (the theorems' predicates) are evaluated on the implementation's own output.",
-   note=NOTE_COMMON + "Partial: that the rewritten header, parsed AGAIN by token822_addrlist, yields the same addresses is proved only up to tokens (parse(unparse out)=out); the second address-list pass is covered by "
-        "the second-injection oracle only. The grammar automaton is sufficient, not a characterisation of everything the code accepts; headerbody's line splitting is tied by correspondence only. Modelled, not "
-        "verified: stand-in queue, control files/environment supplied by the harness, fixed clock and pid, ipme list, no NUL in C strings; Mail-Followup-To (QMAILMFTFILE) is not exercised. Finding C17-angle-comment "
-        "(comment inside <...> defeated route stripping / plus-domain rule) was repaired in /repo (a66f18c); the pre-fix code is detected as a violation, and C17_comments_ignored is false for it.",
+   text="44 theorems about the Lean models of quote.c, token822.c, qmail-remote.c addrmangle, commands.c, qmail-smtpd.c addrparse, hfield.c, headerbody.c and qmail-inject.c; all are proved by induction / simulation over "
+        "the model functions (none restates a monitor guard); the models are tied to the C code by the translator and by trace comparison in two differential harnesses. Quoting: for EVERY local part (any bytes) and every "
+        "sane domain unquote(parse(quote2(local@domain)))=local@domain with token shape word(.word)*@domain, and token822_addrlist on these tokens succeeds with exactly ONE callback carrying the whole address; "
+        "addrparse(<addrmangle a>)=a up to 899 bytes, refused beyond, through one commands() line, for MAIL FROM and for RCPT TO; the regenerated ok[] table is inside atomok/atomcheck (decide over 256 bytes) and the "
+        "theorems' atom bytes are exactly RFC 822's atom characters (decide against a definition written from the RFC). Envelope, from BYTES to the queue: for every legal rendering (a generator-style spec: atoms, quoted "
+        "strings/literals with any quoted-pairs, nested comments, any white space and folds) token822_parse returns exactly the rendered tokens; comment tokens never influence token822_addrlist (any token list); for every "
+        "address list accepted by a grammar automaton - mailboxes, display-name <route-addr>, groups, repeated and missing commas - and for every address-list tree, token822_addrlist succeeds and hands exactly the listed "
+        "mailboxes, right to left, to the callback; hfield_known equals an independent field-name matcher plus table lookup (every line); C17_field_end_to_end: for a field TEXT that is a legal rendering of name:tree whose "
+        "own name is To/Cc/Bcc/Apparently-To (Resent-To/Cc/Bcc) and sane control values, the strings the field contributes to hrlist (hrrlist) are exactly the tree's mailboxes rewritten by the documented STRING-level rule "
+        "Spec.Addr.rewriteMailbox (default host, default domain, plus domain, literal hosts, source routes stripped), nothing to the other list; command-line recipients local@host are rewritten by the same rule (any local "
+        "part); C17_envelope_inject (no existential): for every message on which qmail-inject exits 0 the recipients given to qmail-queue are the rewritten arguments followed by the concatenation of the fields' "
+        "contributions - the Resent- ones if ANY field is one of the eight Resent- fields, else the To/Cc/Bcc/Apparently-To ones - per -a/-h/-H/default; parse(unparse n ts)=ts for EVERY line length (folding macro included) "
+        "on clean tokens, and the rewritten field IS clean whenever the field's input tokens are clean and none is the atom '+' alone (complement: To: u@+ does not re-parse); the output message is Return-Path line (only "
+        "-n) ++ at most four generated fields ++ concatenation of the fields' saved contributions ++ body, and a field NAMED Bcc/Resent-Bcc/Return-Path/Content-Length contributes nothing while Bcc/Resent-Bcc still feed the "
+        "envelope. Tied to the current source by the translator (ok[], atomok, atomcheck, escape sets, hname[], H_*, LINELEN) and by two differential harnesses: H1 runs the real quoting/parsing functions on every local part "
+        "over a 17-byte alphabet to length 5/6 (each through token822_addrlist and through MAIL FROM and RCPT TO) and every token string over a 15-byte alphabet to length 5/6 plus random long inputs and grammar-generated "
+        "lists, re-renders the tokens the real parser returned (random folds, quoted-pairs, nested comments) and parses them again, and runs token822_addrlist a second time without the comment tokens; H2 runs the real "
+        "qmail-inject main in-process with a stand-in queue on headers from an RFC 822 grammar generator (groups, routes, comments, quoted strings, literals, folding, missing commas, the bare host '+'; expected mailboxes "
+        "known by construction) x flag/strategy/configuration combinations, and injects every produced message a second time. Oracles (the theorems' predicates) are evaluated on the implementation's own output; a generated "
+        "grammatical header that qmail-inject rejects is a failure; each oracle has a floor on the number of cases it judged (below it the run is an error).",
+   note=NOTE_COMMON + "Partial: (1) that the rewritten header, parsed AGAIN by token822_addrlist, yields the same addresses is proved only up to tokens (parse(unparse out)=out from input-level hypotheses); the second "
+        "address-list pass is covered by the second-injection oracle only. (2) Bcc removal is proved for the saved-header DECOMPOSITION (a field named Bcc contributes nothing); that no line of the final TEXT - inside a "
+        "kept field holding LF in a quoted string, in the generated From field, in the body - is read as a Bcc header by an independent reader is covered by the oracle Ihidden only (C17_bcc_message_partial). "
+        "(3) headerbody's line splitting is tied by correspondence only; the end-to-end theorems start from the field texts headerbody delivers. The grammar automaton is sufficient, not a characterisation of everything the "
+        "code accepts. C17_modes, C17_bcc and the per-field part of C17_envelope_field are one-step unfoldings kept for readability; the whole-run statements are C17_envelope_inject, C17_bcc_message_partial and "
+        "C17_field_end_to_end. Modelled, not verified: stand-in queue, control files/environment supplied by the harness, fixed clock and pid, ipme list, no NUL in C strings; Mail-Followup-To (QMAILMFTFILE) is not "
+        "exercised. Finding C17-angle-comment (comment inside <...> defeated route stripping / plus-domain rule) was repaired in /repo (a66f18c); the pre-fix code is detected as a violation, and C17_comments_ignored is "
+        "false for it. An independent audit of the statements found an under-determined existential in the former C17_envelope_inject and a re-parse conjunct conditional on a derived value; both statements were replaced "
+        "(notes/C17.md section 2a).",
    technique="Lean 4 proof (tokenizer transducer run lemmas and a fold invariant for unparse, table facts by decide, simulation 'same but taout' for comments, abstract edge automaton for the right-to-left parser, "
-        "list induction over header fields) + exhaustive/grammar-based differential correspondence with the C code",
+        "cleanliness invariant through token822_addrlist and rwgeneric, hmatch = independent matcher by lock-step induction, list induction over header fields for recipient lists / htypeseen / saved header) + "
+        "exhaustive/grammar-based differential correspondence with the C code, oracle floors",
    design="DESIGN.md §2 C17")
 CHECKS["C18"] = dict(
    text="Theorems over ALL request strings / command streams / report streams and ALL system-call outcomes about Lean models of qmail-clean.c main + cleanuppid, "
@@ -244,23 +257,38 @@ CHECKS["C18"] = dict(
    technique="Lean 4 proof (validation cascades, decimal round trip, framing-automaton invariant = independent grammar, per-event balance invariants, step-based = declarative reader) + translator for report tables + exhaustive/structured differential correspondence of three real programs",
    design="DESIGN.md §2 C18")
 CHECKS["C19"] = dict(
-   text="Theorems (43, no sorry) over ALL stored messages, command streams and maildirs about the Lean model Nq.Pop3 of qmail-pop3d.c/maildir.c/prioq.c/commands.c and qmail-popup.c: "
-        "an RFC 1939 client decodes RETR to exactly the lines of the file plus the documented blank line and TOP n to header+blank+n body lines (no bare LF, dots stuffed, "
-        "terminator only at the end); the message table built at start-up is a permutation of the eligible files (new/ and cur/, no dot files, mtime < now) sorted by mtime "
-        "(heap sort of prioq.c, proved by showing the POP3 heap model equal to the C15 heap model and reusing its lemmas) and message numbers denote that same file and size for the whole session, "
-        "whatever bytes arrive in whatever pieces and whatever files vanish; STAT's total is the sum of the sizes of the unmarked messages; LAST is the highest number marked since the last RSET; "
-        "a command line verb SP+ arg [CR] is dispatched as exactly (verb, arg), one handler per LF-terminated line, and the model's parser agrees with the reference's on every NUL-free line; "
-        "nothing is unlinked before or without QUIT, QUIT removes exactly the messages marked by an accepted DELE since the last RSET and keeps the rest; 0, out-of-range, >= 2^64, non-numeric and "
-        "marked numbers are refused without effect; uid 0 exits 1 before touching the maildir; before authentication only USER/PASS/APOP/NOOP/QUIT act and descriptor 3 gets user NUL pass NUL <timestamp> NUL verbatim. "
-        "Tied to the current source by the translator (both pop3commands[] tables, the number scanner in use) and by running the real main() of both programs (sanitised build of the "
-        "working tree, real temporary maildir, stand-in checker) against the compiled model on every command sequence up to length 3/4 over a 41-command alphabet on 5 maildir populations, "
-        "every message over {LF,'.',a,CR} up to length 6/7, random sessions with vanishing files, arbitrary read sizes and maildirs of up to 49 messages, and by driving prioq.c directly "
-        "(every insertion order of up to 6 entries, random histories of up to 400 insert/delmin calls, array compared entry by entry); the oracle is an independent RFC 1939 reference evaluated on the "
-        "implementation's transcript (STAT total and LAST value included) plus, for the heap, 'every delmin removes a minimum, nothing lost, drain sorted' evaluated on the implementation's output.",
-   note=NOTE_COMMON + "Modelled, not verified: readdir order (recorded by the harness), the clock (fixed), stat/open/read succeed on existing files, unique maildir names, pipe/fork succeed, timeouts. "
-        "By correspondence and oracle only: which of several files with equal mtime gets the lower number (heap shape; left open by the property). "
-        "LAST is specified as the code behaves (highest DELEted number; RFC 1460's 'highest accessed' would also count RETR) - the man page only says LAST is supported.",
-   technique="Lean 4 proof (encoder/decoder induction over lines, session invariants, file-system algebra for QUIT, heap-sort via simulation to the C15 prioq model) + translator for command tables + exhaustive differential correspondence with the C programs",
+   text="Theorems (59, no sorry) about the Lean model Nq.Pop3 of qmail-pop3d.c/maildir.c/prioq.c/commands.c and qmail-popup.c, over ALL stored messages, command streams and maildirs. "
+        "(a) Against the independently written RFC 1939 reference Nq.Pop3Ref: an RFC 1939 client decodes the payload of RETR to exactly the lines of the file plus the documented blank line and of TOP n k - "
+        "k of any size, also >= 2^64-1 where count+1 saturates to 'no limit' - to header+blank+k body lines (no bare LF, dots stuffed, terminator only at the end); msgno() equals the reference reading of a "
+        "message number in terms of the unbounded decimal value (accepted <=> digits, 1..count, unmarked; an accepted number denotes that message; DELE n marks message n); the model's line parser agrees "
+        "with the reference's on every NUL-free line; and a STEP and SESSION SIMULATION: under an explicit relation Sim between model and reference state (same paths, size = length of the data, marked <=> in the "
+        "reference's set, file absent <=> reported gone) every reply of every non-QUIT command is accepted by the reference's matchReply as the reply RFC 1939 requires (STAT total, LAST, LIST/UIDL values, RETR/TOP "
+        "payload, refusals) and the relation is preserved, QUIT's lines are accepted by matchQuit, the start state of main() is related to the reference's initial state on a numbering that is a mtime-sorted "
+        "permutation of the eligible files, hence the reference's walk accepts the whole transcript of main() for every sequence of NUL/LF-free command lines interleaved with removals by third parties "
+        "(side conditions, all explicit: <= INT_MAX messages, no LF in a path, total size < 2^64-1, unique maildir names). Not proved: the last stage of the oracle (sorted final maildir = expectFs); the final "
+        "maildir is characterised path by path instead. "
+        "(b) Inductive invariants of the model: the message table built at start-up is a permutation of the eligible files (new/ and cur/, no dot files, mtime < now) sorted by mtime (heap sort of prioq.c via "
+        "simulation to the C15 heap model) and message numbers denote that same file and size for the whole session whatever bytes arrive in whatever pieces and whatever files vanish; nothing is unlinked or "
+        "renamed before or without QUIT; pop3_quit's loop removes every marked message, keeps every other file unchanged, and an unmarked new/x is afterwards cur/x:2, with the same data and new/x is gone; LAST is "
+        "the highest number marked since the last RSET at every point of every session; one handler per LF-terminated line, independent of read sizes. "
+        "(c) qmail-popup at the level of main(): for USER u CRLF PASS p CRLF <anything> and APOP name digest CRLF <anything> (any case, u/p any non-empty NUL/LF-free bytes) descriptor 3 receives exactly "
+        "u NUL p NUL <greeting timestamp> NUL, the output and the exit code are as stated; nothing reaches descriptor 3 unless the loop stopped in doanddie(). "
+        "(d) Linking lemmas - one-branch unfoldings of the model's handlers in the model's own vocabulary (C19_listing, _list_reply, _dele_marks, _rset_unmarks, _marks_unchanged, _retr_reply, _retr_vanished, "
+        "_last_reply, _stat, _refuse, _root, _main_session, _preauth_refuse, _preauth_userpass, _preauth_apop, _sizes, _limit_whole/_count) and C19_tables (translator output): these say nothing beyond the model's "
+        "definition and are tied to the C code only by trace replay; they are the case lemmas the simulation (a) is assembled from. "
+        "Tied to the current source by the translator (both pop3commands[] tables, the number scanner in use, tmp/ age) and by running the real main() of both programs (sanitised build of the working tree, real "
+        "temporary maildir, stand-in checker) against the compiled model on every command sequence up to length 3/4 over a 41-command alphabet on 5 maildir populations, every message over {LF,'.',a,CR} up to "
+        "length 6/7, random sessions with vanishing files, arbitrary read sizes and maildirs of up to 49 messages, and by driving prioq.c directly; the ORACLE is the same reference Nq.Pop3Ref.sessionOk evaluated on "
+        "the IMPLEMENTATION's transcript and final maildir - exists an admissible numbering (mtime-sorted permutation of the eligible files), decided exactly by lazy exhaustive search over all tie permutations "
+        "(first candidate: the model's order if independently admissible; a failing case with more than 8! orderings is counted as skipped, never reported) - plus, for the heap, 'every delmin removes a minimum, "
+        "nothing lost, drain sorted' on the implementation's output.",
+   note=NOTE_COMMON + "Modelled, not verified: readdir order (recorded by the harness), the clock (fixed), stat/open/read succeed on existing files, unique maildir names (NamesOk is a hypothesis of the QUIT and "
+        "session theorems: with colliding names rename(2) in pop3_quit replaces a message), pipe/fork succeed, timeouts. By correspondence and oracle only: which of several files with equal mtime gets the "
+        "lower number (heap shape; left open by the property); the sorted-maildir stage of sessionOk for the model; a removal in the middle of a command line (the session theorem is at line granularity; "
+        "C19_chunking covers read sizes). LAST is specified as the code behaves (highest DELEted number; RFC 1460's 'highest accessed' would also count RETR). Thorough tier: 6.76 M cases, 350 s wall at load "
+        "average 40-52 (16 cores shared).",
+   technique="Lean 4 proof (step/session simulation between the model and an independent RFC 1939 reference; encoder/decoder induction over lines; session invariants; file-system algebra for QUIT; heap-sort via "
+        "simulation to the C15 prioq model; byte-level lemmas for fmt_ulong and the reply texts) + translator for command tables + exhaustive differential correspondence with the C programs",
    design="DESIGN.md §2 C19")
 CHECKS["C02"] = dict(
    text="Theorems about EVERY state reachable from the empty queue by ANY sequence of system-call-granular events of any number of qmail-queue instances, qmail-send with its qmail-clean, further "
